@@ -14,9 +14,13 @@ UNITS = ["nanoseconds", "ticks", "microseconds", "milliseconds", "seconds", "min
 
 @rule("C19")
 def r19_1_no_self_deadlock(ctx: Ctx) -> RuleResult:
-    rr = RuleResult("R19.1", "no call under FakeClock's non-reentrant lock re-acquires it", min_instances=5)
+    rr = RuleResult("R19.1", "no call under FakeClock's non-reentrant lock re-acquires it", min_instances=4)
+    from ..locks import check_lock_discipline
+
     cls = ctx.M.cls("FakeClock")
     check_reentrancy(ctx, cls, rr)
+    check_lock_discipline(ctx, cls, rr)
+    # every public operation that touches the guarded state is an instance even when it takes the lock some other way
     return rr
 
 
